@@ -18,7 +18,7 @@ def nontrivial(case, sess):
     return len(sess.driver.sent_log()) >= 1 and len([o for o in case["ops"] if o["op"] == "line"]) >= 4 and "aborted" not in sess.labels
 
 
-KINDS = ["node", "child", "set", "set", "req", "req", "req", "battery", "sketch", "time", "time", "config", "config", "idreq", "idreq", "ready", "wake", "discover", "log", "misc", "cfgreq", "blkreq", "stream_misc"]
+KINDS = ["node", "child", "set", "set", "req", "req", "req", "battery", "sketch", "time", "time", "config", "config", "idreq", "idreq", "ready", "wake", "wake", "wake", "discover", "log", "misc", "cfgreq", "blkreq", "stream_misc"]
 
 CHECK = HistoryCheck(
     "C05", {"reply", "ids", "reboot"}, RULE,
